@@ -636,7 +636,8 @@ def judge(chk, c, evs):
             swept = a_e - a_s
             # compare modulo 2 pi with the requested angle
             diff = math.atan2(math.sin(swept - ang), math.cos(swept - ang))
-            if abs(diff) > 1e-7:
+            # (the centre is reconstructed from three vertices that span as little as 0.3 rad: its own error is of the order of 1e-7 / angle)
+            if abs(diff) > 1e-6:
                 report('angle', 'turn sweeps %.9f rad (mod 2 pi), requested %.9f' % (swept, ang))
                 return
             # vertices in order along the arc
